@@ -370,6 +370,16 @@ pub fn finish(ctx: &Ctx, mut rep: Report) -> i32 {
     let mut unknown = 0;
     let mut known_seen = Vec::new();
     let _ = std::fs::create_dir_all(format!("{}/replays", root()));
+    // the replay directory describes the last run of this property only
+    if let Ok(rd) = std::fs::read_dir(format!("{}/replays", root())) {
+        let prefix = format!("{}-", ctx.prop);
+        for e in rd.flatten() {
+            let name = e.file_name().to_string_lossy().to_string();
+            if name.starts_with(&prefix) && name.ends_with(".txt") {
+                let _ = std::fs::remove_file(e.path());
+            }
+        }
+    }
     let mut viol_list = Vec::new();
     let mut n = 0;
     // stable order: by lowest index then signature
